@@ -25,6 +25,7 @@ from c12 import c14n, priv, with_timeout, Alarm, norm
 
 PROP = "C15"
 BIG = {"styled_table.ods", "test_col_cell.ods", "test_col_cell_blue.ods"}     # ~10^6 declared rows: never expanded
+QUICK_SKIP = {"big.ods"}
 CALL_TIMEOUT = 8
 
 # ------------------------------------------------------------------------------------------------ Coq side
@@ -252,34 +253,74 @@ def open_source(odfdo, src):
     return Document(path), origin
 
 
-def snapshot(doc, origin):
-    """logical content of every part, independent of what is loaded / cached and of odfdo's serializer"""
+_BYTES_DIGEST = {}     # id(bytes object) -> (the object, digest): unloaded / binary parts are digested once
+
+
+def _bytes_digest(p, data):
+    if isinstance(data, str):
+        data = data.encode("utf-8")
+    k = id(data)
+    hit = _BYTES_DIGEST.get(k)
+    if hit is not None and hit[0] is data:
+        return hit[1]
+    d = None
+    if p.endswith(".xml") and data:
+        try:
+            d = hashlib.md5(etree.tostring(etree.parse(io.BytesIO(data)), method="c14n")).hexdigest()
+        except etree.XMLSyntaxError:
+            d = None
+    if d is None:
+        d = hashlib.md5(data or b"").hexdigest()
+    _BYTES_DIGEST[k] = (data, d)
+    return d
+
+
+def snapshot(doc, origin, canonical=True, only=None):
+    """logical content of every part, independent of what is loaded / cached and of odfdo's serializer.
+    canonical=True: C14N of the in-memory trees.  canonical=False: plain lxml serialisation of the trees (14x faster on
+    big.ods); equal plain serialisations imply equal infosets, unequal ones are re-examined with C14N by `changed`."""
     xmlparts = doc._Document__xmlparts
     cparts = doc.container._Container__parts
     snap = {}
-    for p in sorted(set(cparts) | set(xmlparts) | set(origin)):
+    for p in (sorted(set(cparts) | set(xmlparts) | set(origin)) if only is None else only):
         xp = xmlparts.get(p)
         tree = getattr(xp, "_XmlPart__tree", None) if xp is not None else None
         if tree is not None:
-            snap[p] = hashlib.md5(etree.tostring(tree, method="c14n")).hexdigest()
+            snap[p] = ("tree", hashlib.md5(etree.tostring(tree, method="c14n") if canonical else etree.tostring(tree)).hexdigest())
             continue
         if p in cparts:
             data = cparts[p]
             if data is None:
-                snap[p] = "<deleted>"
+                snap[p] = ("deleted", "")
                 continue
         else:
             data = origin.get(p)
-        if isinstance(data, str):
-            data = data.encode("utf-8")
-        if p.endswith(".xml") and data:
-            try:
-                snap[p] = hashlib.md5(etree.tostring(etree.fromstring(data), method="c14n")).hexdigest()
-                continue
-            except etree.XMLSyntaxError:
-                pass
-        snap[p] = hashlib.md5(data or b"").hexdigest()
+        snap[p] = ("bytes", _bytes_digest(p, data))
     return snap
+
+
+class Base:
+    """the reference state of a document: canonical and fast digests of every part"""
+    def __init__(self, doc, origin):
+        self.canon = snapshot(doc, origin, True)
+        self.fast = snapshot(doc, origin, False)
+
+    def changed(self, doc, origin):
+        """parts whose logical content differs from the reference (empty list = unchanged)"""
+        cur = snapshot(doc, origin, False)
+        suspects = [p for p in set(cur) | set(self.fast) if cur.get(p) != self.fast.get(p)]
+        if not suspects:
+            return []
+        # a part that was bytes and is now a parsed tree (lazy load), or whose plain serialisation differs: decide by C14N
+        canon = snapshot(doc, origin, True, only=[p for p in suspects if p in cur])
+        out = []
+        for p in suspects:
+            a, b = self.canon.get(p), canon.get(p)
+            if a is None or b is None or a[1] != b[1] or (a[0] == "deleted") != (b[0] == "deleted"):
+                out.append(p)
+            else:
+                self.fast[p] = cur[p]      # same infoset under another representation: remember the new fast digest
+        return sorted(out)
 
 
 # ------------------------------------------------------------------------------------------------ entry points
@@ -611,9 +652,9 @@ def run_document(src, tier, seed, only=None):
     except Exception as e:
         res["failures"].append(dict(kind="open-failed", key="open/%s" % src["id"], detail=repr(e)[:300], source=src))
         return finish_res(res)
-    base = snapshot(doc, origin)
+    base = Base(doc, origin)
     ents, skipped = entries_for(doc, tier, random.Random("loc-%s-%s" % (seed, src["id"])))
-    if snapshot(doc, origin) != base:
+    if base.changed(doc, origin):
         res["failures"].append(dict(kind="mutation", key="mutation/enumeration", detail="locating the objects changed the document", source=src))
     res["skipped"] = skipped
     if only is not None:
@@ -633,12 +674,12 @@ def run_document(src, tier, seed, only=None):
         res["hist"][kind] = res["hist"].get(kind, 0) + 1
         if a1[0] == "timeout": res["timeouts"] += 1
         if a1[0] == "exc": res["exceptions"] += 1
-        s1 = snapshot(doc, origin)
+        ch = base.changed(doc, origin)
         case = dict(source=src, locator=list(loc), cls=cname, call=label)
-        if s1 != base:
+        if ch:
             res["failures"].append(dict(kind="mutation", key="mutation/%s%s" % (cname, label if label.startswith(".") else "." + label),
-                                        detail="parts changed: %s (answer %s)" % (diff_parts(base, s1), a1[0]), case=case))
-            doc, origin = open_source(odfdo, src); base = snapshot(doc, origin); res["reloads"] += 1
+                                        detail="parts changed: %s (answer %s)" % (ch, a1[0]), case=case))
+            doc, origin = open_source(odfdo, src); base = Base(doc, origin); res["reloads"] += 1
             return
         if a1[0] != "ok":
             return
@@ -646,11 +687,11 @@ def run_document(src, tier, seed, only=None):
         if check_twice:
             a2 = call_entry(doc, obj, fn)
             res["calls"] += 1
-            s2 = snapshot(doc, origin)
-            if s2 != base:
+            ch = base.changed(doc, origin)
+            if ch:
                 res["failures"].append(dict(kind="mutation", key="mutation-2nd/%s.%s" % (cname, label.lstrip(".")),
-                                            detail="second call changed parts: %s" % diff_parts(base, s2), case=case))
-                doc, origin = open_source(odfdo, src); base = snapshot(doc, origin); res["reloads"] += 1
+                                            detail="second call changed parts: %s" % ch, case=case))
+                doc, origin = open_source(odfdo, src); base = Base(doc, origin); res["reloads"] += 1
                 return
             if a2 != a1:
                 res["failures"].append(dict(kind="nondeterministic", key="twice/%s.%s" % (cname, label.lstrip(".")),
@@ -664,7 +705,7 @@ def run_document(src, tier, seed, only=None):
 
     # CPU budget per document (big.ods: every snapshot is a C14N of a 1.5 MB tree): what is not reached is counted
     t_start = time.process_time()
-    total = 45 if tier == "quick" else 150
+    total = 24 if tier == "quick" else 150
     first_pass = total * 2 / 3
     for idx, ent in enumerate(ents):
         if only is None and time.process_time() - t_start > first_pass:
@@ -672,7 +713,7 @@ def run_document(src, tier, seed, only=None):
             break
         one(idx, ent, True)
         res["entries_done"] += 1
-    orders = 1 if tier == "quick" else 2
+    orders = 1 if tier == "quick" else 3
     for _ in range(orders if only is None else 0):
         order = [i for i in range(len(ents)) if i in answers]; rng.shuffle(order)
         for idx in order:
@@ -760,11 +801,12 @@ def sources(tier, seed):
     samples = sorted(p for p in (common.REPO / "tests" / "samples").iterdir() if p.suffix in (".odt", ".ods", ".odp", ".odg", ".ott", ".ots"))
     skipped = [p.name for p in samples if p.name in BIG]
     samples = [p for p in samples if p.name not in BIG]
-    if tier == "quick":        # every second sample, seeded offset; the thorough tier takes them all
-        samples = samples[seed % 2::2]
+    if tier == "quick":        # big.ods (3.8 MB of content.xml): thorough tier only, under its CPU budget
+        skipped += [p.name + " (quick tier)" for p in samples if p.name in QUICK_SKIP]
+        samples = [p for p in samples if p.name not in QUICK_SKIP]
     for p in samples:
         out.append(dict(id="sample:" + p.name, kind="sample", path=str(p)))
-    ngen = 3 if tier == "quick" else 8
+    ngen = 3 if tier == "quick" else 12
     for i in range(ngen):
         out.append(dict(id="generated:text:%d" % i, kind="generated", spec=dict(gen="text", seed=seed * 1000 + i)))
         out.append(dict(id="generated:sheet:%d" % i, kind="generated", spec=dict(gen="sheet", seed=seed * 1000 + i)))
@@ -782,6 +824,7 @@ def worker_main(job_file, out_file):
         res = run_document(job["src"], job["tier"], job["seed"], job["only"])
     except Exception:
         res = _empty_result(job["src"], [dict(kind="harness", key="harness/%s" % job["src"]["id"], detail=traceback.format_exc()[-600:], source=job["src"])])
+    res["cpu_s"] = round(time.process_time(), 1)
     Path(out_file).write_text(json.dumps(res, default=list))
 
 
@@ -914,10 +957,10 @@ def run(tier, seed, replay=None):
              "objects per document: the document, body, meta, styles/content/manifest/settings parts, the first tables (first and last row, first cell), the first element(s) of every tag; "
              "per object: every property + every zero-argument method whose name matches the read pattern + the explicit argument list; every call twice, then again in %d shuffled order(s); snapshot compared after EVERY call. "
              "distinct_nontrivial = distinct (class, entry point) pairs that returned normally at least once"
-             % (sorted(BIG), sum(1 for s in srcs if s["id"].startswith("generated:text")), sum(1 for s in srcs if s["id"].startswith("generated:sheet")), 1 if tier == "quick" else 2),
+             % (sorted(BIG), sum(1 for s in srcs if s["id"].startswith("generated:text")), sum(1 for s in srcs if s["id"].startswith("generated:sheet")), 1 if tier == "quick" else 3),
         samples=samples, documents=len(jobs), big_sheets_skipped=skipped_big, calls=calls, coq_cases=len(cases),
         objects_by_kind=dict(sorted(hist.items())), timeouts=sum(r["timeouts"] for r in results), reader_exceptions=sum(r["exceptions"] for r in results),
-        documents_lost=lost, documents_cut_by_cpu_budget=[dict(document=r["id"], entries_done=r.get("entries_done"), entries=r["entries"]) for r in results if r.get("budget_exhausted")],
+        slowest_documents=sorted(((r.get("cpu_s", 0), r["id"]) for r in results), reverse=True)[:5], documents_lost=lost, documents_cut_by_cpu_budget=[dict(document=r["id"], entries_done=r.get("entries_done"), entries=r["entries"]) for r in results if r.get("budget_exhausted")],
         reloads_after_mutation=sum(r["reloads"] for r in results), failures=nfail, fidelity_divergences=fidelity,
         public_methods_not_classified_read_only=len(skipped_names), not_classified_sample=sorted(skipped_names)[:40],
         corpus_cases=len(corpus), known_findings_reobserved=known_seen, exhaustive=False)
